@@ -13,7 +13,7 @@
 From Coq Require Import List Arith Bool.
 Import ListNotations.
 From ZI Require Export Tie.RegCommon.
-From ZI Require Import Spec.EntryPoints.
+From ZI Require Import Spec.EntryPoints Model.Trie Model.Bookkeeping.
 
 (* A case = the phases of a history + one observed answer per registry op.  A phase is a stretch
    of the history during which the specification world did not change: its observed graph, the
@@ -38,7 +38,7 @@ Definition call8 (v : value) (os : list nat) : option nat :=
 
 (* The model run = Model/RegSys.run, with the separator of the subscribers answer taken from the
    shared constant (the literal in RegSys.step is rebuilt, a million constructors, at every
-   QSubscribers step: 50 ms each).  [run8_eq] shows it is the same function. *)
+   QSubscribers step: 50 ms each).  [step8_eq] shows it is the same function. *)
 Definition step8 (W : world) (s : sys) (o : rop) : sys * list nat :=
   match o with
   | QSubscribers r os p =>
@@ -47,22 +47,57 @@ Definition step8 (W : world) (s : sys) (o : rop) : sys * list nat :=
   | _ => step W call8 s o
   end.
 
-(* final state and answers *)
-Fixpoint run8 (W : world) (s : sys) (ops : list rop) : sys * list (list nat) :=
-  match ops with
-  | [] => (s, [])
-  | o :: ops' => let '(s', a) := step8 W s o in let '(s'', l) := run8 W s' ops' in (s'', a :: l)
-  end.
-
 Lemma step8_eq W s o : step8 W s o = step W call8 s o.
 Proof. destruct o; reflexivity. Qed.
 
-Lemma run8_eq W ops : forall s, snd (run8 W s ops) = run W call8 s ops.
+(* rebuild() replays allRegistrations() / allSubscriptions() in the enumeration order of the NESTED
+   dictionaries.  The flat storage of Model/Adapter.v cannot see that order (Model/Adapter.rebuild
+   replays in the flat list's own order), and the order decides the order of the extendors lists
+   afterwards, hence which of two registrations under different provided interfaces a lookup finds.
+   So the tie carries the nested-dictionary model of every registry (Model/Trie.v) in lockstep -
+   exactly Model/Bookkeeping.lock_step, per registry - and rebuild() replays in ITS listing order.
+   Every other operation is Model/RegSys.step ([step9_eq]). *)
+Fixpoint tupd (l : list treg) (r : nat) (f : treg -> treg) : list treg :=
+  match l, r with
+  | [], _ => []
+  | t :: l', 0 => f t :: l'
+  | t :: l', S r' => t :: tupd l' r' f
+  end.
+
+Definition mstate := (sys * list treg)%type.
+
+Definition step9 (W : world) (st : mstate) (o : rop) : mstate * list nat :=
+  let '(s, ts) := st in
+  let ts' := match o with
+             | ONewReg _ _ => ts ++ [t_empty]
+             | _ => match as_bop o with
+                    | Some (r, b) => tupd ts r (fun t => t_bstep W t b)
+                    | None => ts
+                    end
+             end in
+  match o with
+  | ORebuild r =>
+      let x := get s r in
+      let t := nth r ts t_empty in
+      let g := replay_into W (fresh_reg (generation (rs_reg x))) (t_allRegistrations t) (t_allSubscriptions t) in
+      let s1 := set s r (mkRS g (rs_caches x) (rs_bases x) (rs_ro x) (rs_subs x) (rs_vro x) (rs_vgen x) (rs_flavour x)) in
+      ((after_bump s1 r, ts'), [])
+  | _ => let '(s', a) := step8 W s o in ((s', ts'), a)
+  end.
+
+Lemma step9_eq W s ts o : (forall r, o <> ORebuild r) ->
+  (fst (fst (step9 W (s, ts) o)), snd (step9 W (s, ts) o)) = step W call8 s o.
 Proof.
-  induction ops as [|o ops IH]; intros s; cbn [run8 run]; [reflexivity|].
-  rewrite step8_eq. destruct (step W call8 s o) as [s' a]. specialize (IH s').
-  destruct (run8 W s' ops) as [s'' l]. cbn [snd] in *. rewrite IH. reflexivity.
+  intros H. rewrite <- step8_eq. destruct o; try (exfalso; eapply H; reflexivity);
+    unfold step9; cbv zeta; destruct (step8 W s _) as [s' a]; reflexivity.
 Qed.
+
+(* final state and answers *)
+Fixpoint run8 (W : world) (s : mstate) (ops : list rop) : mstate * list (list nat) :=
+  match ops with
+  | [] => (s, [])
+  | o :: ops' => let '(s', a) := step9 W s o in let '(s'', l) := run8 W s' ops' in (s'', a :: l)
+  end.
 
 (* A specification changed in place calls changed() on everything that depends on it: the
    specifications extending it and, through them, every lookup object that subscribed to one of
@@ -75,27 +110,18 @@ Definition invalidate (W : world) (chg : list spec) (s : sys) : sys :=
                then lookup_changed false s r else s)
             (seq 0 (length s)) s.
 
-Fixpoint run_phases (s : sys) (ps : list phase) : list (list nat) :=
+Fixpoint run_phases (st : mstate) (ps : list phase) : list (list nat) :=
   match ps with
   | [] => []
   | (g, ifs, chg, ops) :: ps' =>
       let W := mk_world g ifs in
-      let '(s', l) := run8 W (invalidate W chg s) ops in
-      l ++ run_phases s' ps'
+      let '(st', l) := run8 W (invalidate W chg (fst st), snd st) ops in
+      l ++ run_phases st' ps'
   end.
 
-Definition model_out (c : case_t) : list (list nat) := run_phases [] (fst c).
+Definition model_out (c : case_t) : list (list nat) := run_phases ([], []) (fst c).
 
 Definition check_model (c : case_t) : bool := llnat_eqb (model_out c) (snd c).
-
-(* over a static world this is Model/RegSys.run from the empty system, as in Tie/RegCommon *)
-Lemma check_model_static g ifs ops obs :
-  check_model ([(g, ifs, [], ops)], obs) = llnat_eqb (run (mk_world g ifs) call8 [] ops) obs.
-Proof.
-  unfold check_model, model_out. cbn [fst snd run_phases invalidate length seq fold_left].
-  pose proof (run8_eq (mk_world g ifs) ops []) as H.
-  destruct (run8 (mk_world g ifs) [] ops) as [s' l]. cbn [snd] in H. rewrite app_nil_r, H. reflexivity.
-Qed.
 
 Definition is_mutation (o : rop) : bool :=
   match o with
